@@ -287,7 +287,9 @@ where
     }
     let ctx = || format!("old={} new({})={} offsets=({},{}) script={}", fmt_seq(a), std::any::type_name::<NT>().rsplit("::").next().unwrap_or(""), fmt_seq(b), po, pn, fmt_ops(&ops_in));
 
-    let stacks: &[u8] = if focus == Focus::C09 { &[2] } else { &[0, 1, 2] };
+    // 3/4: the same adapters around a BORROWED capture hook; 5: one Replace object used for two
+    // scripts in a row (everything must have been flushed by the time finish returned)
+    let stacks: &[u8] = if focus == Focus::C09 { &[2, 4] } else { &[0, 1, 2, 3, 4, 5] };
     for &stack in stacks {
         out.eval();
         let r = guard(|| -> (Vec<DiffOp>, usize) {
@@ -310,7 +312,7 @@ where
                     c.finish().unwrap();
                     (c.into_inner().into_ops(), before)
                 }
-                _ => {
+                2 => {
                     let mut c = Compact::new(Replace::new(Capture::new()), &old, &new);
                     for op in &ops_in {
                         op.apply_to_hook(&mut c).unwrap();
@@ -319,9 +321,47 @@ where
                     c.finish().unwrap();
                     (c.into_inner().into_inner().into_ops(), before)
                 }
+                3 => {
+                    let mut cap = Capture::new();
+                    {
+                        let mut c = Replace::new(&mut cap);
+                        for op in &ops_in {
+                            op.apply_to_hook(&mut c).unwrap();
+                        }
+                        c.finish().unwrap();
+                    }
+                    (cap.into_ops(), 0)
+                }
+                4 => {
+                    let mut cap = Capture::new();
+                    {
+                        let mut c = Compact::new(Replace::new(&mut cap), &old, &new);
+                        for op in &ops_in {
+                            op.apply_to_hook(&mut c).unwrap();
+                        }
+                        c.finish().unwrap();
+                    }
+                    (cap.into_ops(), 0)
+                }
+                _ => {
+                    // the script twice through ONE Replace object: the second half of what the inner
+                    // capture holds must be what a fresh adapter produces
+                    let mut c = Replace::new(Capture::new());
+                    for op in &ops_in {
+                        op.apply_to_hook(&mut c).unwrap();
+                    }
+                    c.finish().unwrap();
+                    let first = c.as_ref().ops().len();
+                    for op in &ops_in {
+                        op.apply_to_hook(&mut c).unwrap();
+                    }
+                    c.finish().unwrap();
+                    let all = c.into_inner().into_ops();
+                    (all[first..].to_vec(), first)
+                }
             }
         });
-        let name = ["Compact<Capture>", "Replace<Capture>", "Compact<Replace<Capture>>"][stack as usize];
+        let name = ["Compact<Capture>", "Replace<Capture>", "Compact<Replace<Capture>>", "Replace<&mut Capture>", "Compact<Replace<&mut Capture>>", "Replace<Capture> re-used after finish"][stack as usize];
         match r {
             Err(p) => {
                 if focus == Focus::C10 {
@@ -346,12 +386,12 @@ where
                                 format!("{}: script deletes {} / inserts {} items, output deletes {} / inserts {} | {} | out={}", name, d0, i0, v.deleted, v.inserted, ctx(), fmt_ops(&ops)),
                             );
                         }
-                        if stack == 1 {
+                        if stack == 1 || stack == 3 || stack == 5 {
                             for (code, msg) in &v.carried {
                                 out.violation(code, format!("{}: {} | {} | out={}", name, msg, ctx(), fmt_ops(&ops)));
                             }
                         }
-                        if stack == 2 {
+                        if stack == 2 || stack == 4 {
                             for (code, msg) in &v.normal {
                                 out.violation(code, format!("{}: {} | {} | out={}", name, msg, ctx(), fmt_ops(&ops)));
                             }
